@@ -91,6 +91,7 @@ type Exec struct {
 	snaps    []*snapNode
 	syncMaps map[*Value]*Map
 	fs       *fsState
+	streams  map[*Value]*streamState
 	uuids    []*Term
 	nuuid    int
 	onceDone map[*Value]bool
